@@ -64,6 +64,9 @@ def run(ctx):
             if i < 8:     # corpus: a failure that is only RETURNED (special file), several workers: copy() must return Err
                 driver = ['parfile', 'parblock'][i % 2]; workers = [4, 8][(i // 2) % 2]; updater = ['record', 'noop'][(i // 4) % 2]
                 fault = True; forced = f'fail mknodat fifo 1 {E["EPERM"]}'
+            elif i < 16 and i >= 12:  # corpus: creating a destination file fails with ENOENT (its directory vanished, a dangling link): an error, not "source vanished"
+                driver = 'parfile'; workers = [1, 4][i % 2]; updater = ['record', 'noop', 'channel', 'record'][i - 12]
+                fault = True; forced = f'fail openat D/ {1 + i % 3} {E["ENOENT"]}'
             elif i < 12:  # corpus: a source sub-directory that cannot be listed (EACCES, as for an unprivileged user): Error or Err, never silence
                 fault = True; forced = f'fail openat =S/sub 1 {E["EACCES"]}'
             if rng.random() < 0.5:
@@ -71,7 +74,7 @@ def run(ctx):
             if fault:
                 victim = f'f{rng.randrange(nfiles)}'
                 plan.append(forced or rng.choice([f'fail copy_file_range D/{victim} 1 {E["EIO"]}', f'fail openat =S/{victim} 1 {E["EACCES"]}', f'fail ftruncate {victim} 1 {E["ENOSPC"]}',
-                                        f'fail openat S/sub/{victim} 1 {E["EMFILE"]}', f'fail mkdir sub 1 {E["EACCES"]}',
+                                        f'fail openat S/sub/{victim} 1 {E["EMFILE"]}', f'fail mkdir sub 1 {E["EACCES"]}', f'fail openat D/{victim} 1 {E["ENOENT"]}', f'fail openat D/sub/{victim} 1 {E["ENOENT"]}', f'fail openat D/sub/deep/{victim} 1 {E["ENOENT"]}',
                                         f'fail mknodat fifo 1 {E["EPERM"]}', f'fail mknodat fifo 1 {E["EPERM"]}', f'fail symlink link 1 {E["EIO"]}']))
             argv = ['--driver', driver, '--workers', str(workers), '--block-size', str(bsize), '--updater', updater]
             if updater == 'record' and rng.random() < 0.5:
